@@ -40,11 +40,11 @@ theorem gen_children_complete_partial : unlistedOffenders = [] := by decide +ker
 def genTable : ChildTable := fun ty => ChildrenTbl.get Gen.childrenTable ty
 
 /-- **C14** for every tree covered by today's table: visit sequence = reachable nodes -/
-theorem walk_visits_exactly (v : Val) (h : v.covered genTable = true) : v.walk genTable = v.nodes :=
-  Val.walk_complete genTable v h
+theorem walk_visits_exactly (v : Val) (h : v.covered genTable none = true) : v.walk genTable none = v.nodes :=
+  Val.walk_complete genTable none v h
 
-theorem walk_visits_only_tree_nodes (v : Val) : (v.walk genTable).Sublist v.nodes :=
-  Val.walk_sound genTable v
+theorem walk_visits_only_tree_nodes (v : Val) : (v.walk genTable none).Sublist v.nodes :=
+  Val.walk_sound genTable none v
 
 /-- non-vacuity: a SELECT with a WHERE comparison is covered and all 4 nodes are visited -/
 def sampleSelect : Val :=
@@ -53,9 +53,18 @@ def sampleSelect : Val :=
       (.cons "Left" (.node "Identifier" (.cons "Name" (.str "a") .nil))
       (.cons "Right" (.node "LiteralValue" (.cons "Value" (.str "1") .nil)) .nil))) .nil))
 
-example : sampleSelect.covered genTable = true := by decide +kernel
-example : sampleSelect.walk genTable =
+example : sampleSelect.covered genTable none = true := by decide +kernel
+example : sampleSelect.walk genTable none =
     ["SelectStatement", "Identifier", "BinaryExpression", "Identifier", "LiteralValue"] := by decide +kernel
+
+/-- dotted paths: the WHERE of ON CONFLICT DO UPDATE sits in the by-value helper struct `Action` -/
+def onConflictVal : Val :=
+  .node "OnConflict" (.cons "Target" (.list .nil)
+    (.cons "Action" (.struct (.cons "DoNothing" (.bool false) (.cons "DoUpdate" (.list .nil)
+      (.cons "Where" (.node "BinaryExpression" (.cons "Operator" (.str "=") .nil)) .nil)))) .nil))
+
+example : onConflictVal.walk genTable none = ["OnConflict", "BinaryExpression"] ∧
+    onConflictVal.covered genTable none = true := by decide +kernel
 
 /-- known finding, exhibited by the model: a frame bound with an offset expression is part of the
     tree but never visited -/
@@ -65,7 +74,7 @@ def frameVal : Val :=
       (.cons "Value" (.node "LiteralValue" (.cons "Value" (.str "2") .nil)) .nil))) .nil))
 
 theorem windowFrame_counterexample :
-    frameVal.walk genTable = ["WindowFrame"] ∧
+    frameVal.walk genTable none = ["WindowFrame"] ∧
     frameVal.nodes = ["WindowFrame", "WindowFrameBound", "LiteralValue"] := by decide +kernel
 
 end GoSQLXModel.Props.C14
